@@ -66,6 +66,12 @@ impl Iterator for MinimiserGenerator<'_> {
 
         loop {
             if self.pos == self.seq.len() {
+                // emit the run that is still open at the end of the sequence
+                if self.m_active != u64::MAX {
+                    let last = (self.m_active, self.m_window_start, self.seq.len());
+                    self.m_active = u64::MAX;
+                    return Some(last);
+                }
                 return None;
             }
             let pos_char = self.seq[self.pos];
@@ -163,11 +169,6 @@ impl Iterator for MinimiserGenerator<'_> {
                         self.m_active = *self.buff.get(j).unwrap();
                     }
                 }
-            }
-
-            if self.pos == self.seq.len() - 1 {
-                self.pos += 1;
-                return Some((self.m_active, self.m_window_start, self.seq.len()));
             }
 
             self.pos += 1;
